@@ -4,6 +4,7 @@ package syncer
 
 import (
 	"context"
+	"time"
 
 	"github.com/PowerDNS/lightningstream/lmdbenv/header"
 	"github.com/PowerDNS/lightningstream/snapshot"
@@ -53,3 +54,7 @@ func VerifDupSortHackDecodeOne(kv snapshot.KV) (snapshot.KV, error) { return dup
 
 // VerifStartState exposes the start tracker's flags (initial listing, initial store, first complete pass).
 func (s *Syncer) VerifStartState() (listing, store, pass bool) { return s.startTracker.VerifState() }
+
+// VerifSetLastSnapshotTime sets the time of the last own snapshot (drives the forced-snapshot interval).
+// Only to be called while the sync loop is parked at a yield point.
+func (s *Syncer) VerifSetLastSnapshotTime(t time.Time) { s.lastSnapshotTime = t }
